@@ -492,6 +492,16 @@ Theorem C07_example_mixed :
   exists d', Loader.load mx_F3 = Loader.LOk d' Xref.XTStream /\ d_objects d' = mx_objs3 /\ d_max_id d' = 5.
 Proof. exact example_mixed. Qed.
 
+(* ... and a third update back to the TABLE format over the stream section (table / table / stream / table): the loaded
+   max_id is max 5 6 = 6, the table rule of (C6) *)
+Theorem C07_example_mixed_back :
+  mixed_history Xref.XTTable [(XTable, Xref.XTStream); (XStream, Xref.XTTable); (XTable, Xref.XTTable)]
+                mx_F4 (io_start (inc_save mx_s3)) mx_objs4 /\
+  SaveProofs.obj_numbers mx_objs4 = [1; 2; 3; 4; 5; 6] /\
+  lookup mx_objs4 (2, 0) = Some (OInt 9) /\ lookup mx_objs4 (3, 0) = Some (OStr (bs "newer") false) /\
+  exists d', Loader.load mx_F4 = Loader.LOk d' Xref.XTTable /\ d_objects d' = mx_objs4 /\ d_max_id d' = 6.
+Proof. exact example_mixed_back. Qed.
+
 (* ---------------------------------------------------------------------------------------------------------------- *)
 (* (C6) THE RELOADED max_id, EXACTLY.  The loader sets max_id to the largest key of the merged table; after an update
    that is [step_max fmt mx nd] (Proofs/C07BytesMaxId.v), mx = the max_id load returned for the previous bytes:
@@ -590,6 +600,7 @@ Print Assumptions C07_mixed_history_update_again.
 Print Assumptions C07_history_is_mixed.
 Print Assumptions C07_format_is_inherited.
 Print Assumptions C07_example_mixed.
+Print Assumptions C07_example_mixed_back.
 Print Assumptions C07_step_max_id.
 Print Assumptions C07_mixed_history_step_max_id.
 Print Assumptions C07_update_again_max_id.
